@@ -217,15 +217,7 @@ func workloads() []*workload {
 			Adm:        func(p []int, c class) bool { return pow2(p[0]) && p[0] >= 2 && p[0]/2 >= c.nPlain() },
 			Cost:       func(p []int) int { return p[0] * 12 },
 			PlainMulti: true, Splits: true, UnifiedMem: true, TimingList: tlNone, Oracle: oVerify,
-			Quar: func(p []int, c class) string {
-				if t := hipIgnoresGlobalOffset(p, c); t != "" {
-					return t
-				}
-				if c.Arch == "gcn3" && c.Timing && p[0] >= 256 {
-					return "gcn3-timing-two-or-more-work-groups"
-				}
-				return ""
-			},
+			Quar:        hipIgnoresGlobalOffset,
 			MultiLaunch: true,
 			Build: func(d *driver.Driver, a arch.Type, p []int) benchmarks.Benchmark {
 				b := bitonicsort.NewBenchmark(d)
@@ -255,12 +247,6 @@ func workloads() []*workload {
 			Adm:        func(p []int, c class) bool { return p[0]%8 == 0 && p[0] >= 8 },
 			Cost:       func(p []int) int { return p[0] * p[0] * p[0] },
 			PlainMulti: true, Splits: false, UnifiedMem: true, TimingList: tlFull, Oracle: oVerify,
-			Quar: func(p []int, c class) string {
-				if c.Arch == "gcn3" && c.Timing && p[0] >= 24 && p[1] == 0 {
-					return "gcn3-timing-24-or-more-nodes-all-passes"
-				}
-				return ""
-			},
 			Shapes2D:    [][]int{{136, 2}, {96, 3}}, // (node/8)^2: 17x17 = 289, 12x12 = 144 work-groups
 			MultiLaunch: true,
 			Build: func(d *driver.Driver, a arch.Type, p []int) benchmarks.Benchmark {
@@ -397,12 +383,6 @@ func workloads() []*workload {
 			Adm:        func(p []int, c class) bool { return p[0] >= 1 && p[1] >= p[0] && p[1] <= p[0]*p[0] && p[2] >= 1 },
 			Cost:       func(p []int) int { return (p[0]*64 + p[1]) * p[2] * 4 },
 			PlainMulti: true, Splits: false, UnifiedMem: true, TimingList: tlFull, Oracle: oVerify,
-			Quar: func(p []int, c class) string {
-				if c.Arch == "gcn3" && c.Timing && p[0] > 16 && p[2] >= 3 {
-					return "gcn3-timing-three-or-more-iterations-over-more-than-16-nodes"
-				}
-				return ""
-			},
 			MultiLaunch: true,
 			Build: func(d *driver.Driver, a arch.Type, p []int) benchmarks.Benchmark {
 				b := pagerank.NewBenchmark(d)
@@ -547,15 +527,6 @@ func workloads() []*workload {
 			},
 			Cost:       func(p []int) int { return p[0] * p[1] * p[2] * p[3] * p[4] * p[5] * p[5] * 40 * (1 + 2*p[8]) },
 			PlainMulti: false, Splits: false, UnifiedMem: true, TimingList: tlNone, Oracle: oCrossVer,
-			Quar: func(p []int, c class) string {
-				if c.Arch == "cdna3" && p[8] == 1 {
-					return "cdna3-backward"
-				}
-				if c.Arch == "cdna3" && p[1] >= 2 {
-					return "cdna3-two-or-more-input-channels"
-				}
-				return ""
-			},
 			MultiLaunch: true,
 			Build: func(d *driver.Driver, a arch.Type, p []int) benchmarks.Benchmark {
 				b := conv2d.NewBenchmark(d)
